@@ -269,7 +269,7 @@ def run_property(prop, tier, seed):
     known = load_known()
     items = cone(prop)
     import multiprocessing as mp
-    nproc = int(os.environ.get("PYVC_ITEM_WORKERS", "5"))
+    nproc = int(os.environ.get("PYVC_ITEM_WORKERS", "4"))
     if nproc > 1 and len(items) > 1:
         with mp.get_context("fork").Pool(nproc) as pool:
             outs = pool.starmap(decide_item, [(prop, it[0], it[1], it[2], tier, seed, known) for it in items], chunksize=1)
